@@ -368,6 +368,10 @@ def plan_C12(q, seed):
     jobs = [rand_job("CONSUME", 150000 if q else 3000000, time_limit=30 if q else 500, extra=["--consume-bias", "3"])]
     jobs += [rand_job("CONSUME", 40000 if q else 800000, objs=3, length=40, time_limit=15 if q else 200, extra=["--consume-bias", "5"], label="rand-CONSUME-dense-e1")]
     jobs += san_samples(q, cls="CONSUME", extra=["--consume-bias", "3"])
+    # values without drop glue (handles owned as raw pointers): an outside owner of group members is given up
+    # by try_unwrap / make_mut, then the group is collected; its old allocation must stay untouched under a Weak
+    jobs += [gen_job("nodropconsume", "CONSUME", 40000 if q else 1000000, time_limit=15 if q else 150),
+             e2(gen_job("nodropconsume", "CONSUME", 4000 if q else 100000, time_limit=15 if q else 150))]
     return {
         "jobs": jobs,
         "rule": "well-formed random histories that call try_unwrap, make_mut (clone / move / unique branches), get_mut, into_raw+from_raw, increment/decrement_strong_count on objects that have adopted or been adopted, with and without outstanding Weak handles, followed by further drops of the former peers; link-table snapshots (H1) must not name a given-up allocation, values must be moved out or cloned exactly once (canary + destructor log), and all later operations must satisfy the rules of C01/C02/C05/C06. Non-trivial = a consuming call succeeded in a history whose tables had entries; distinct = distinct operation sequences",
@@ -399,9 +403,12 @@ def plan_C14(q, seed):
         # an adoption is also undone when the peer dies: after an elided unadopt the survivor's table must
         # be purged of the dead peer completely (whatever the recorded multiplicities were)
         rand_job("ELIDE", 60000 if q else 1200000, time_limit=20 if q else 300, label="rand-ELIDE-cost-e1"),
+        # ... and when the peer's allocation is given up by try_unwrap / make_mut
+        rand_job("CONSUME", 60000 if q else 1200000, time_limit=20 if q else 300, extra=["--consume-bias", "3"], label="rand-CONSUME-cost-e1"),
     ]
     return {
         "jobs": jobs,
+        "accept_foreign": [["C12", "cost"]],
         "rule": "around every clone and drop of a handle to an object whose ledger row and column are empty (never adopted, fully unadopted again, or merely stored inside adopted objects) the trace-invocation counter (hook H3) and MonAlloc's library-origin allocation counter are sampled at call and at return (or at the first destructor start: work done by user destructors is not charged); both deltas must be zero. Non-trivial = at least one such window was measured; distinct = distinct operation sequences",
         "require": {"stats.c14_obs": 100000, "stats.c14_after_unadopt_obs": 1000},
     }
@@ -412,9 +419,9 @@ def plan_C15(q, seed):
         sizes = [("ring", 1000), ("ring", 10000), ("ring", 100000), ("chords", 1000), ("chords", 100000),
                  ("selfmix", 1000), ("selfmix", 100000), ("clique", 100), ("clique", 300),
                  ("hub", 10000), ("hub", 40000), ("hub", 160000), ("chords", 25000), ("chords", 400000),
-                 ("sharedleaf", 3001), ("sharedleaf", 48001), ("aftermath", 200000), ("churn", 300000)]
+                 ("sharedleaf", 3001), ("sharedleaf", 48001), ("aftermath", 200000), ("churn", 300000), ("ring", 400000)]
         stacks = [128]
-        growth = [("hub", 40000, 160000), ("chords", 25000, 100000), ("chords", 100000, 400000), ("ring", 10000, 100000)]
+        growth = [("hub", 40000, 160000), ("chords", 25000, 100000), ("chords", 100000, 400000), ("ring", 10000, 100000), ("ring", 100000, 400000)]
     else:
         sizes = [(s, n) for s in ("ring", "chords", "selfmix") for n in (1000, 3000, 10000, 30000, 100000, 300000)]
         sizes += [("clique", n) for n in (50, 100, 200, 400, 600)]
